@@ -715,6 +715,8 @@ theorem lemma_stepH_invB (s : St) (h : InvB s) : InvB (stepH s) := by
       split
       · exact hkeep _ h1 (by intro a ha; rw [hpr]; exact List.mem_cons_of_mem _ ha) h3 rfl rfl rfl rfl rfl
       · exact ⟨h1, h2, h3, h4, h5, h6⟩
+    · rename_i r hpr
+      exact hkeep _ h1 (by intro a ha; rw [hpr]; exact List.mem_cons_of_mem _ ha) h3 rfl rfl rfl rfl rfl
     · rename_i v r hpr
       exact absurd rfl ((h2 (.panic v) (by rw [hpr]; exact List.mem_cons_self ..)).2.2 v)
 
